@@ -320,6 +320,22 @@ Qed.
 
 End Matching.
 
+(* all of it in one statement, the candidate edges spelled out *)
+Theorem select_is_matching :
+  forall (A D : Type) (aeqb : A -> A -> bool) (dltb deqb : D -> D -> bool),
+  (forall x y, aeqb x y = true <-> x = y) ->
+  forall (cutoff : D) (ds : list (trip A D)),
+  let raw := select_raw A D aeqb dltb deqb cutoff ds in
+  NoDup (map fst raw) /\ NoDup (map snd raw) /\
+  (forall k v, In (k, v) raw -> exists d, In (k, v, d) ds /\ dltb d cutoff = true) /\
+  (forall k v, In (k, v) (select A D aeqb dltb deqb cutoff ds) ->
+     (exists d, In (k, v, d) ds /\ dltb d cutoff = true) \/ (exists d, In (v, k, d) ds /\ dltb d cutoff = true)).
+Proof.
+  intros A D aeqb dltb deqb Ha cutoff ds.
+  destruct (select_raw_matching A D aeqb dltb deqb Ha cutoff ds) as (N1 & N2 & E).
+  split; [exact N1|]. split; [exact N2|]. split; [exact E|]. exact (select_sound A D aeqb dltb deqb Ha cutoff ds).
+Qed.
+
 (* the candidate edges of the double loop over hashes_added x hashes_removed lie in that product *)
 Lemma edge_in_prod (A D : Type) (dltb : D -> D -> bool) (cutoff : D) (dist : A -> A -> D) (adds rems : list A) a r :
   edge A D dltb cutoff (map (fun ar => (fst ar, snd ar, dist (fst ar) (snd ar))) (list_prod adds rems)) a r ->
@@ -406,6 +422,21 @@ Proof.
   eapply shaped_consistent; [| |exact Sp].
   - intros a r. exists a, r. split; [apply Hd|reflexivity].
   - intros l l'. destruct (Hp l l') as [E1 E2]. split; [exact E1|]. exists l, l'. split; [exact E2|reflexivity].
+Qed.
+
+Corollary oriented_keys_transparent :
+  forall (A D : Type) aeqb dltb deqb (dkey : A -> A -> key) (pkey : list A -> list A -> key)
+         (nested : A -> A -> prog (mval A D)) (pre : list A -> list A -> option (list (trip A D))) (cutoff ddflt : D) (vdflt : mval A D)
+         (dinv : key -> option (A * A)) (pinv : key -> option (list A * list A)),
+  (forall a r, dinv (dkey a r) = Some (a, r)) ->
+  (forall l l', dinv (pkey l l') = None /\ pinv (pkey l l') = Some (l, l')) ->
+  forall p, shaped A D aeqb dltb deqb dkey pkey nested pre cutoff ddflt p ->
+  consistent (spec_shaped A D aeqb dltb deqb dkey nested pre cutoff ddflt vdflt dinv pinv) p /\
+  forall cap sched, fst (fst (run_cached sched p (mkM (empty cap) 0))) = run_pure p.
+Proof.
+  intros A D aeqb dltb deqb dkey pkey nested pre cutoff ddflt vdflt dinv pinv Hd Hp p Sp.
+  pose proof (oriented_keys_consistent A D aeqb dltb deqb dkey pkey nested pre cutoff ddflt vdflt dinv pinv Hd Hp p Sp) as Hc.
+  split; [exact Hc|]. intros cap sched. eapply cache_transparent. exact Hc.
 Qed.
 
 (* the keys of diff.py: the hash pair sorted (larger first), the two hash lists sorted *)
